@@ -32,8 +32,6 @@ from harness.common import Machinery
 from harness.fakes import ScriptedTransport, ScriptEnv
 
 JENV = {"JAVA_TOOL_OPTIONS": "-Xss256m"}
-DEVS = ["Dev_S1_CdtcsNoSuppressBit", "Dev_S2_ClearDddiInverted", "Dev_S3_Type6Pack", "Dev_S4_ExtDataWidths",
-        "Dev_S5_WmbaTrailing", "Dev_S6_DtcDictCollapse", "Dev_S7_ClearDddiLen3"]
 
 
 # ----------------------------------------------------------------------------- TLC: export + model checking
@@ -56,39 +54,26 @@ def export_cases(max_groups: int = 3) -> tuple[dict[str, Any], tlc.TlcResult]:
         shutil.rmtree(d, ignore_errors=True)
 
 
-def mc_cfg(side: str, kindsel: str, max_groups: int, dev: str | None, extra_inv: tuple[str, ...] = ()) -> str:
-    lines = ["SPECIFICATION Spec", "CONSTANTS", f'  Side = "{side}"', f"  KindSel <- {kindsel}",
-             f"  MaxGroups = {max_groups}"]
-    for d in DEVS:
-        lines.append(f"  {d} = {'TRUE' if d == dev else 'FALSE'}")
-    for inv in ("TypeOK", "L0_TablesRoundTrip", "Q1_Constructible", "Q1_Layout", "Q3_NeverRaw", "Q3_SameFields",
-                "Q4_Refused", "R1_Fields", "R2_Reencode", "R3_LengthRule", *extra_inv):
-        lines.append(f"INVARIANT {inv}")
-    lines.append("CHECK_DEADLOCK FALSE")
-    return "\n".join(lines) + "\n"
-
-
-NEG_CONTROLS = {  # deviation -> (side, kind selection, invariants one of which must be violated)
-    "Dev_S1_CdtcsNoSuppressBit": ("req", "KS1", {"Q1_Layout", "Q3_NeverRaw"}),
-    "Dev_S2_ClearDddiInverted": ("req", "KS2", {"Q1_Constructible", "Q1_Layout", "Q3_NeverRaw"}),
-    "Dev_S3_Type6Pack": ("req", "KS3", {"Q1_Constructible"}),
-    "Dev_S4_ExtDataWidths": ("resp", "KS4", {"R2_Reencode"}),
-    "Dev_S5_WmbaTrailing": ("resp", "KS5", {"R2_Reencode", "R3_LengthRule"}),
-    "Dev_S6_DtcDictCollapse": ("resp", "KS6", {"R1_Fields", "R2_Reencode"}),
-    "Dev_S7_ClearDddiLen3": ("resp", "KS7", {"R2_Reencode", "R3_LengthRule"}),
+NEG_CONTROLS = {  # deviation -> (cfg, invariants one of which must be violated)
+    "Dev_S1_CdtcsNoSuppressBit": ("MC_UdsLayout_devS1.cfg", {"Q1_Layout", "Q3_NeverRaw"}),
+    "Dev_S2_ClearDddiInverted": ("MC_UdsLayout_devS2.cfg", {"Q1_Constructible", "Q1_Layout", "Q3_NeverRaw"}),
+    "Dev_S3_Type6Pack": ("MC_UdsLayout_devS3.cfg", {"Q1_Constructible"}),
+    "Dev_S4_ExtDataWidths": ("MC_UdsLayout_devS4.cfg", {"R2_Reencode"}),
+    "Dev_S5_WmbaTrailing": ("MC_UdsLayout_devS5.cfg", {"R2_Reencode", "R3_LengthRule"}),
+    "Dev_S6_DtcDictCollapse": ("MC_UdsLayout_devS6.cfg", {"R1_Fields", "R2_Reencode"}),
+    "Dev_S7_ClearDddiLen3": ("MC_UdsLayout_devS7.cfg", {"R2_Reencode", "R3_LengthRule"}),
 }
 
 
 def model_check(side: str, max_groups: int, devs: list[str], pool: ThreadPoolExecutor, coverage: bool = True) -> Any:
-    """Submit the exhaustive design-vs-contract run of one side and its negative controls."""
+    """Submit the exhaustive design-vs-contract run of one side (MC_UdsLayout_{req,resp}[8].cfg) and its
+    negative controls (MC_UdsLayout_devS*.cfg)."""
     futs = {}
-    inv = ("D_ValidAccepted",) if side == "resp" else ()
-    futs["design"] = pool.submit(tlc.run_tlc, "MC_UdsLayout", cfg_text=mc_cfg(side, "AllKinds", max_groups, None, inv),
-                                 timeout=1800, workers=4, env=JENV, coverage=coverage)
+    cfg = f"MC_UdsLayout_{side}{'8' if max_groups == 8 else ''}.cfg"
+    futs["design"] = pool.submit(tlc.run_tlc, "MC_UdsLayout", cfg, timeout=1800, workers=4, env=JENV,
+                                 coverage=coverage)
     for d in devs:
-        s, ks, _ = NEG_CONTROLS[d]
-        futs[d] = pool.submit(tlc.run_tlc, "MC_UdsLayout", cfg_text=mc_cfg(s, ks, 3, d), timeout=600, workers=2,
-                              env=JENV)
+        futs[d] = pool.submit(tlc.run_tlc, "MC_UdsLayout", NEG_CONTROLS[d][0], timeout=600, workers=2, env=JENV)
     return futs
 
 
@@ -106,7 +91,7 @@ def collect_mc(rep: Any, futs: Any, actions: set[str]) -> None:
             rep.extra["design_actions_taken"] = {a: res.coverage.get(a, (0, 0))[0] for a in sorted(actions)}
         else:
             rep.add_tlc(res, f"MC_UdsLayout {name} (negative control)")
-            want = NEG_CONTROLS[name][2]
+            want = NEG_CONTROLS[name][1]
             if res.violated not in want:
                 raise Machinery(f"negative control {name} violated {res.violated!r}, expected one of {sorted(want)}: "
                                 f"the contract does not see the deviation")
